@@ -178,6 +178,26 @@ func init() {
 			fr.i.stubs[a[0].(string)] = a[1].(iface).v
 			return nil
 		},
+		rt + "Valid": func(fr *frame, a []value) value {
+			i := fr.i
+			switch c := a[0].(type) {
+			case bool:
+				return c
+			case *Term:
+				if i.model != nil && c.eval(i.model, i.evalMemo()) != 1 {
+					return false // the cached model of the path condition falsifies it
+				}
+				res, m := i.solver.Check(i.tt.BNot(c), i.ex.cfg.AssertTimeout, i.tt.vars)
+				if res == "sat" && m != nil && i.model == nil {
+					i.setModel(m)
+				}
+				if res == "unknown" {
+					i.unsupported("solver unknown in Valid")
+				}
+				return res == "unsat"
+			}
+			panic(engineBug("Valid of non-bool"))
+		},
 		rt + "IsConcrete": func(fr *frame, a []value) value {
 			_, ok := bytesOf(a[0])
 			return ok
